@@ -234,6 +234,24 @@ func gramCases(j run.Job, yield func(c GCase)) {
 				yield(GCase{G: g, In: in, NT: nt, Fam: "strings"})
 			}
 		}
+	case "typed":
+		// token-level grammars over the library's typed terminals (integer, float, bool, nil, char, duration, word,
+		// regexp), every token trimmed one way or another; P[refonly]=1: only shapes the reference semantics models
+		r := rand.New(rand.NewSource(j.Seed))
+		for gi := 0; gi < j.N; gi++ {
+			g := gram.TypedGrammar(r, j.Param("refonly", 1) == 1, j.Param("trims", 1) == 1)
+			for ii := 0; ii < j.Param("inputs", 6); ii++ {
+				bias := 92
+				if ii == j.Param("inputs", 6)-1 {
+					bias = 0
+				}
+				in := g.RandomInput(r, 0, 30, bias)
+				if bias > 0 && r.Intn(2) == 0 && j.Param("trims", 1) == 1 {
+					in += []string{" ", "\n", " \n ", "\t"}[r.Intn(4)] // whitespace after the last token, in front of the end of input
+				}
+				yield(GCase{G: g, In: in, NT: 0, Fam: "typed"})
+			}
+		}
 	case "trimseq":
 		r := rand.New(rand.NewSource(j.Seed))
 		inputs := j.Param("inputs", 6)
